@@ -708,6 +708,13 @@ def gen_C16(rng, tier):
         prog, regs, anynan = rand_program(rng, rng.randint(2, 4 if tier == "quick" else 6))
         last = regs[-1]
         prog = prog + [C.read(last, "frame"), C.query(last, "nsteps")]
+        if rng.random() < 0.35:      # ... and a collection aggregate of some of its functions, with a step-free member among them
+            ms = rng.sample(regs, min(len(regs), rng.randint(1, 3)))
+            side = next((s_["closed"] for s_ in prog if s_["s"] in ("new", "from_values")), LEFT)
+            prog = prog + [C.new(80, rng.choice([F(5), F(0), F(-1), None]), side)]
+            ms.insert(rng.randrange(len(ms) + 1), 80)
+            prog = prog + [C.agg(81, rng.choice(["sum", "mean", "max", "min", "median", "logical_or", "logical_and"]), ms),
+                           C.read(81, "frame"), C.query(81, "nsteps")]
         # the same program under several provenance / materialisation / scalar-type variants
         for v in range(4):
             cases.append(mk(f"C16/{k}/v{v}", prog, flav(rng, anynan), tags=["program"]))
@@ -866,13 +873,26 @@ def gen_C13_directed(rng, k):
     d = F(0)
     kind = rng.choice(["shift", "shift", "copy", "neg", "addc", "mulc", "rmulc", "clipnone", "wherenone", "fills", "mask1", "sub0",
                        "diff", "addself", "agg", "agg", "agg1", "cliphi_at", "cliphi_at", "wherehi_at", "aggwin_at",
-                       "rdivc", "rdivc", "rdivs", "divc", "rsubc", "relc", "identq", "identq"])
+                       "rdivc", "rdivc", "rdivs", "divc", "rsubc", "relc", "identq", "identq", "constrhs", "constrhs"])
     if kind in ("agg", "agg1"):       # collection aggregates (their initial value comes out of a numpy reduction)
         g2 = rand_leaf(rng, maxn=3, nan=0.0, grid=1, span=6, vals=[F(j) for j in range(-1, 3)])
         P.append(leaf_stmt(2, g2, c))
         P.append(C.agg(1, rng.choice(["sum", "mean", "median", "min", "max", "logical_or", "logical_and"]), [0, 2] if kind == "agg" else [0]))
     elif kind == "rmulc":
         P.append(C.bin_(1, "mul", C.cst(1), C.reg(0)))
+    elif kind == "constrhs":      # a step-free Stairs of the OTHER closed side as right operand / masker / receiver: it never
+        # mismatches, and it keeps its own side (and stays layerable on that side) afterwards
+        oc = RIGHT if c == LEFT else LEFT
+        P.append(C.new(2, rng.choice([F(2), F(0), F(1), F(-1)]), oc))
+        how = rng.choice(["bin", "bin", "rbin", "mask", "recv"])
+        if how == "bin":
+            P.append(C.bin_(1, rng.choice(["add", "sub", "mul", "lt", "ge", "eq", "and", "or", "xor"]), C.reg(0), C.reg(2)))
+        elif how == "rbin":
+            P.append(C.bin_(1, rng.choice(["add", "sub", "mul", "gt", "ne", "or"]), C.reg(2), C.reg(0)))
+        elif how == "mask":
+            P.append(C.mask(1, 0, 2, inverse=rng.random() < 0.5))
+        else:
+            P.append(C.mask(1, 2, 0, inverse=rng.random() < 0.5))
     elif kind == "identq":        # identical() is an operation too: both operands are what they were, and usable, afterwards
         P += [leaf_stmt(2, f, c), C.query(0, "identical", a=C.reg(2)), C.un(1, "copy", 0)]
     elif kind == "rdivc":         # scalar / f where f takes the value zero (6 and 12 divide exactly by every value of f)
@@ -921,7 +941,7 @@ def gen_C13_directed(rng, k):
         P.append(C.bin_(1, "add", C.reg(0), C.reg(0)))
     pts0 = f[0]
     pts1 = [p + d for p in pts0]
-    regs = [0, 1] + ([2] if kind == "identq" else [])
+    regs = [0, 1] + ([2] if kind in ("identq", "constrhs") else [])
     if rng.random() < 0.4:        # a function derived from the result: siblings and grand-children share nothing either
         k2 = rng.choice(["copy", "copy", "clipnone", "shift0", "fills", "neg"])
         P.append({"copy": C.un(3, "copy", 1), "clipnone": C.clip(3, 1, None, None), "shift0": C.shift(3, 1, F(0)),
